@@ -32,6 +32,10 @@ units = [
     u("C07_expected_same_str", "harness/C07_expected.cpp", 3, fl=FL1),
     u("C07_expected_conv", "harness/C07_expected.cpp", 4, fl=FL1),
     u("C07_select", "harness/C07_select.cpp", shards=(1, 1), fl=FL1),
+    Unit("C07_select_zoo1", "harness/C07_select.cpp", std="c++23", defs=["-DVF_PART=1"], flavours=FLO0, shards={"quick": 1, "thorough": 1}),
+    Unit("C07_select_zoo2", "harness/C07_select.cpp", std="c++23", defs=["-DVF_PART=2"], flavours=FLO0, shards={"quick": 1, "thorough": 1}),
+    Unit("C07_select_zoo3", "harness/C07_select.cpp", std="c++23", defs=["-DVF_PART=3"], flavours=FLO0, shards={"quick": 1, "thorough": 1}),
+    u("C07_addressof", "harness/C07_addressof.cpp", shards=(1, 1), fl=FL),
     u("C07_unordered", "harness/C07_unordered.cpp", shards=(1, 1), fl=FL1),
     u("C07_members", "harness/C07_members.cpp", shards=(1, 1), fl=FL),
     u("C07_valueor", "harness/C07_valueor.cpp", shards=(1, 1), fl=FL1),
@@ -57,12 +61,13 @@ P = dict(
                 "not) and a move-only variant, multi-variant visit over every index combination of 2 and 3 variants; expected<int,int>, expected<tracked,tracked2>, unexpected; "
                 "variants with REPEATED alternative types (variant<tracked,int,tracked>, variant<int,int>, variant<string-like,string-like,char>) driven purely by index incl. "
                 "visit_with_index, and expected<T,T> / expected<T,E convertible to T>; "
-                "the alternative selected by converting construction/assignment for 416 (variant, argument type) cells and 83 optional<T>/optional<U> conversion cells; "
+                "the alternative selected by converting construction/assignment for 1 582 (variant, argument type) cells (arithmetic types, class types with conversion functions, enums, nullptr, arrays; bool in every position) and 83 optional<T>/optional<U> conversion cells; "
                 "every relation with the SAME object on both sides / an optional against its own contained object for non-reflexive and inconsistent payload comparisons; "
                 "value_or with fallbacks of other arithmetic / class types at the precision boundaries (value and declared return type) and the declared result types of and_then / or_else; "
                 "relations between optionals of different payload types (signed/unsigned, integer/floating, char/int at the conversion boundaries); every copy-style operation "
                 "from a non-const lvalue leaves its source unchanged (payloads whose rvalue overloads damage the argument); visit over variants with 1, 2 and 3 alternatives in "
                 "every position and index combination; "
+                "a payload with a hostile unary operator& through every access path (identity against std::addressof); "
                 "all six relations over unordered payloads (NaN, a partially ordered instrumented type whose own <,<=,>,>= calls are counted) for optional, optional<T&> and variant; "
                 "952 cells over payload types whose copy/move constructor, copy/move assignment and destructor are independently trivial or user-provided, comparing the "
                 "special-member call ledger of copy/move assignment, construction, emplace, reset and swap with the std owner of the same payload type. "
